@@ -1,7 +1,7 @@
 (* C15 — The recorded history is faithful and the trend utilities agree with it. *)
 From Coq Require Import String List ZArith Bool Arith.
 From PV Require Import Xnum Select PyLib Select_proofs Argsort Vars Vars_proofs Task_proofs Init Init_proofs Skeleton Skeleton_proofs Loop Trend.
-From PVGen Require Import GenTrend GenStop Algos Expected.
+From PVGen Require Import GenTrend GenStop Algos Expected GenHyper.
 From PVBridge Require Import TrendBridge LoopBridge AlgoBridge ProvMain.
 
 (* history: an agent object, once built by a conforming optimizer, is never altered by anything that happens later
@@ -49,3 +49,9 @@ Print Assumptions C15_agent_trend.
 Print Assumptions C15_agent_position.
 Print Assumptions C15_idx_th_best.
 Print Assumptions C15_best_trend_last.
+
+(* state shared between objects (regenerated scan of the whole package: memoising decorators, mutable class attributes of non-pydantic classes, module-level
+   containers mutated by functions): there is none - the trend utilities read the result they are given and nothing memoised from another result *)
+Theorem C15_no_shared_mutable_state : gen_no_shared_mutable_state = true.
+Proof. reflexivity. Qed.
+Print Assumptions C15_no_shared_mutable_state.
